@@ -209,6 +209,7 @@ func parseCall(p *parser, bp oper.BP, callee ast.Expr, t *token.Token) ast.Expr 
 
 func parseDot(p *parser, bp oper.BP, obj ast.Expr, t *token.Token) ast.Expr {
 	name := p.eat()
+	p.syntaxAssert(t.Pos, name.Kind != token.EOF, "expect field name after `.`")
 	// 放开限制则可以写 1. +(1), 1可以看成对象, .和+必须有空格是因为否则会匹配自定义操作符
 	//util.Assert(name.Kind == token.SYM || name.Kind == token.TRUE || name.Kind == token.FALSE,
 	//	"syntax error: %s", name.Lexeme)
